@@ -15,8 +15,10 @@ stations, successor or predecessor provably differs from what it has seen on the
     that goes offline forgets its ring view (imported C12 d.truthful offline clause);
  e  the token is passed to NS and accepted from PS or on the second offer (imported C11 b.accept, d.pass, e.alone);
  f  removal / re-admission keep the view equal to the online set (imported C11 c.supervision, C12 a/e).
-NOT decided here: the arithmetic of the bit-vector updates (which addresses are cleared/set by one token pass, that NS/PS are the
-cyclic neighbours) beyond panic freedom (C05), and everything that quantifies over several stations.
+ g  one witnessed pass sa -> da clears exactly the span [sa, da) (cyclically) and then enters sa (table of fill/set sites);
+ h  NS = first active station above TS, else the first one, else TS; PS = last active below TS, else the last one, else TS (table of
+    the definitions of the stored values; decided only for the Iterator::find spelling, otherwise recorded as not decided).
+NOT decided here: everything that quantifies over several stations.
 """
 from analysis import rule
 from analysis.guards import GuardAnalysis
@@ -223,11 +225,148 @@ def must_update(P, f, upd, depth=0):
     return all(0 not in g.count_of(fs, "upd") for rb in f.return_blocks for fs in g.at(rb))
 
 
+import re as _re
+
+
+def _norm(t):
+    """`usize::from(x)` / `x as usize` -> x in a shown term"""
+    t = _re.sub(r"\bfrom\(([^()]*)\)", r"\1", t)
+    t = _re.sub(r"\(([^()]*) as usize\)", r"\1", t)
+    return t
+
+
+def check_las_update(ctx, P):
+    """g: one witnessed pass sa -> da clears exactly the span [sa, da) of the list (cyclically when da <= sa) and then enters sa.
+    Table of the fill / set sites per value of the wrap test, read from the resolved calls."""
+    f = ctx.need_fn(CR, "fdl::token_ring::TokenRing::update_las_from_token_pass")
+    if f is None:
+        return
+    g = GuardAnalysis(f, P)
+    tb = g.tb
+
+    def wrap_value(fs):
+        """True = "da > sa" (no wrap), False = wrap; None when the path class has no recognised test; 'other' for another predicate"""
+        out = None
+        for k, vs in fs.items():
+            if k[0] != "cmp" or vs[0] != "in" or len(vs[1]) != 1:
+                continue
+            a, b = show(strip_casts(k[2])), show(strip_casts(k[3]))
+            if {a, b} != {"sa", "da"}:
+                continue
+            v = next(iter(vs[1]))
+            if k[1] == "lt" and (a, b) == ("sa", "da"):
+                out = v
+            elif k[1] == "le" and (a, b) == ("da", "sa"):
+                out = not v
+            else:
+                return "other:%s %s %s" % (a, k[1], b)
+        return out
+    got = set()
+    nfill = 0
+    for b, c in call_sites(f):
+        cal = c.get("callee") or ""
+        if cal.endswith("::fill") and len(c["args"]) == 2:
+            nfill += 1
+            val = show(tb.joperand(c["args"][1]))
+            rng = tb.joperand(c["args"][0])
+            idx = [x for x in subterms(rng) if isinstance(x, tuple) and x and x[0] == "call" and x[1].endswith("index_mut")]
+            r = _norm(show(idx[0][2][1])) if idx and len(idx[0][2]) == 2 else "?"
+            for fs in g.at(b):
+                got.add((str(wrap_value(fs)), "fill", r, val))
+        if cal.endswith("BitSlice::<T, O>::set") and len(c["args"]) == 3:
+            for fs in g.at(b):
+                got.add((str(wrap_value(fs)), "set", _norm(show(tb.joperand(c["args"][1]))), show(tb.joperand(c["args"][2]))))
+    want = {("True", "fill", "Range::Range(sa, da)", "False"), ("False", "fill", "RangeFrom::RangeFrom(sa)", "False"),
+            ("False", "fill", "RangeTo::RangeTo(da)", "False"), ("True", "set", "sa", "True"), ("False", "set", "sa", "True")}
+    ctx.anchor("fill sites in update_las_from_token_pass", nfill, 2)
+    ctx.ob("g.las-update", "span-cleared-source-entered", got == want,
+           "a witnessed token pass sa->da must clear exactly [sa, da) (for da <= sa: [sa, ..) and [.., da)) and then enter sa; the code does %s "
+           "(missing %s, unexpected %s)" % (sorted(got), sorted(want - got), sorted(got - want)), f.loc(0))
+    ctx.sample({"clause": "g.las-update", "table": sorted(got)})
+
+
+def check_neighbours(ctx, P):
+    """h: NS is the first active station above TS, else the first active station, else TS; PS is the last active station below TS,
+    else the last active station, else TS (table of the definitions of the values stored into next_station / previous_station)."""
+    f = ctx.need_fn(CR, "fdl::token_ring::TokenRing::update_next_previous")
+    if f is None:
+        return
+    g = GuardAnalysis(f, P)
+    tb = g.tb
+    finds = [(b, c) for b, c in call_sites(f) if (c.get("callee") or "").endswith("::find")]
+    if not finds:
+        ctx.notes.append("h.neighbours: update_next_previous is not written with Iterator::find - table not read, not decided")
+        return
+    # closure bodies: comparison of the candidate with this_station
+    cmpop = {}
+    for cf in P.crate_fns(CR):
+        if cf.kind == "closure" and cf.name.startswith(f.name + "::{closure"):
+            ctb = TermBuilder(cf, P)
+            for b, i, s_ in stmts(cf):
+                if "a" in s_ and s_["a"]["l"] == 0 and not s_["a"].get("p") and s_["rv"].get("bin"):
+                    t = ctb.rvalue(s_["rv"])
+                    cmpop[cf.name.rsplit("::", 1)[-1]] = (s_["rv"]["bin"], "this_station" in show(t[3]) and "this_station" not in show(t[2]))
+    table = {}
+    for fld in ("next_station", "previous_station"):
+        # the local stored into the field
+        src = None
+        for b, i, s_ in stmts(f):
+            if "a" in s_ and has_field(s_["a"], fld, None):
+                op = s_["rv"].get("use", {})
+                pl = op.get("mv") or op.get("cp")
+                if pl is not None and not pl.get("p"):
+                    src = pl["l"]
+        rows = set()
+        for _ in range(4):   # the field may be stored from a copy of the multi-definition local
+            defs = [s_ for b, i, s_ in stmts(f) if "a" in s_ and s_["a"]["l"] == src and not s_["a"].get("p")] if src is not None else []
+            if len(defs) == 1 and "use" in defs[0]["rv"]:
+                pl = defs[0]["rv"]["use"].get("mv") or defs[0]["rv"]["use"].get("cp")
+                if pl is not None and not pl.get("p"):
+                    src = pl["l"]
+                    continue
+            break
+        if src is not None:
+            for b, i, s_ in stmts(f):
+                if "a" in s_ and s_["a"]["l"] == src and not s_["a"].get("p"):
+                    v = tb.rvalue(s_["rv"])
+                    calls = [x for x in subterms(v) if isinstance(x, tuple) and x and x[0] == "call"]
+                    if path_str(strip_refs(v)) == "self.this_station":
+                        kind = "this"
+                    elif calls and calls[0][1].endswith("::find"):
+                        clo = [str(a[1]) if a[0] == "call" else show(a) for a in calls[0][2][1:2]]
+                        cname = _re.search(r"\{closure#\d+\}", show(calls[0][2][1]))
+                        op = cmpop.get(cname.group(0)) if cname else None
+                        kind = "find%s(%s)" % ("-rev" if "Rev<" in calls[0][1] else "", "%s this" % op[0] if op and op[1] else "?")
+                    elif calls and calls[0][1].endswith("::next_back"):
+                        kind = "last"
+                    elif calls and calls[0][1].endswith("::next"):
+                        kind = "first"
+                    else:
+                        kind = "?" + show(v)[:40]
+                    # guard: which earlier lookups came back empty
+                    for fs in g.at(b, i):
+                        empties = sorted({("find-rev" if "Rev<" in strip_refs(k[1])[1] else "find") if strip_refs(k[1])[1].endswith("::find") else
+                                          ("last" if strip_refs(k[1])[1].endswith("::next_back") else "first")
+                                          for k, vs in fs.items() if k[0] == "discr" and strip_refs(k[1])[0] == "call" and vs == ("in", frozenset(["None"]))
+                                          and (strip_refs(k[1])[1].endswith("::find") or strip_refs(k[1])[1].endswith("::next") or strip_refs(k[1])[1].endswith("::next_back"))})
+                        rows.add((kind, tuple(e for e in empties if (e in ("find", "first")) == (fld == "next_station"))))
+        table[fld] = rows
+    want = {"next_station": {("find(Gt this)", ()), ("first", ("find",)), ("this", ("find", "first"))},
+            "previous_station": {("find-rev(Lt this)", ()), ("last", ("find-rev",)), ("this", ("find-rev", "last"))}}
+    for fld in want:
+        ctx.ob("h.neighbours", "table|" + fld, table[fld] == want[fld],
+               "%s must be %s; the code computes %s" % (fld, sorted(want[fld]), sorted(table[fld])), f.loc(0))
+    ctx.sample({"clause": "h.neighbours", "table": {k: sorted(map(str, v)) for k, v in table.items()}})
+
+
+
 def check(ctx):
     P = ctx.prog
     check_learn(ctx, P)
     check_own_pass(ctx, P)
     check_ns_ps(ctx, P)
+    check_las_update(ctx, P)
+    check_neighbours(ctx, P)
     from rules import C11, C12
     rule.import_clauses(ctx, "C12", C12.check, clauses=("f.truthful", "d.truthful", "a.postcondition", "e.reply"), as_clause="d.validity+f.view")
     rule.import_clauses(ctx, "C11", C11.check, clauses=("b.accept", "d.pass", "e.alone", "c.supervision"), as_clause="e.pass-accept+f.view")
